@@ -406,6 +406,7 @@ async fn conn_task(host: String, mut s: TcpStream) {
         // move statement records into the history
         if sess.stmts.len() > nstmts_before || !sess.stmts.is_empty() {
             let bans = crate::pgcat_api::banned_hosts();
+            world::record_bans(&bans);
             let us = simcore::clock::now_us();
             let mut h = HIST.lock();
             for rec in sess.stmts.drain(..) {
